@@ -12,7 +12,7 @@ LEVEL = 'exploration'
 RULE = ('a case = one stack configuration (data link layer; 0-3 CAs, each not started / waiting for veto / operational by claim / operational by '
         'bypass / cannot-claim / moved to another address after a loss; ECU-level listeners: unfiltered, integer address, predicate) into which a '
         'scripted node injects, for ALL 256 destination addresses: PDU1 single frames (data page 0 and 1), and for unowned destinations TP.CM RTS / '
-        'CTS / EndOfMsgACK / abort and TP.DT (FD: Multi-PG, FD.TP.CM RTS/CTS/EOMS/EOMA/abort, FD.TP.DT); PDU2 frames for 3 PF x all 256 PS; complete '
+        'CTS / EndOfMsgACK / abort, TP.DT, requests and destination-specific address-claimed frames naming a local CA\'s address (FD: Multi-PG, FD.TP.CM RTS/CTS/EOMS/EOMA/abort, FD.TP.DT); PDU2 frames for 3 PF x all 256 PS; complete '
         'and partial foreign RTS/CTS and BAM sessions between two other nodes; all 8 (extended, remote, error) flag combinations; oracle = the set '
         'of callbacks that fired equals the set computed by the harness from its own record of registrations and CA states; for unowned '
         'destinations: no callback, no frame sent by the stack, session tables unchanged; non-trivial = always (every case sweeps all 256 DAs); '
@@ -154,7 +154,7 @@ def run_case(case):
     obs = dict(listener_at_address_0=1 if 0 in int_addrs else 0, frames_injected=0, unowned_protocol_frames=0, callbacks_expected=0, flag_combinations=0, foreign_sessions=0, owned_addresses_max=len(held | int_addrs))
 
     def snapshot():
-        return ({k: len(v) for k, v in fired.items()}, len(W.bus.frames), A.tables())
+        return ({k: len(v) for k, v in fired.items()}, len(W.bus.frames), (A.tables(), tuple((int(c['ca'].state), c['ca'].device_address) for c in cas)))
 
     def inject(can_id, data, what, d, expect, ext=True, remote=False, error=False, check_state=True):
         before = snapshot()
@@ -209,6 +209,13 @@ def run_case(case):
         for what, pf, data in protos:
             inject(C.make_id(7, 0, pf, d, SA), data, what, d, set())
             obs['unowned_protocol_frames'] += 1
+        # destination-specific address-claimed frames to an unowned address, sent "from" an address a local CA holds (or wants): a contender
+        # with a lower and with a higher NAME -- foreign traffic, must not touch the CA
+        for c in cas[:2]:
+            src_a = c['held'] if c['held'] is not None else c['pref']
+            for what, nm in (('claim_lower_name', LOW), ('claim_higher_name', C.name_value(identity_number=0x1FFFFF, function=255, industry_group=7, arbitrary_address_capable=1))):
+                inject(C.make_id(6, 0, C.PF_ADDRESS_CLAIM, d, src_a), C.name_bytes(nm), what, d, set())
+                obs['unowned_protocol_frames'] += 1
     # ---- PDU2: always a broadcast ------------------------------------------------------------------
     everyone = set(listeners)
     for pf in (0xF0, 0xFE, 0xFF):
